@@ -446,6 +446,8 @@ enum Dev {
     DddInName,
     /// \X in an unquoted string is kept verbatim (backslash included)
     EscapeUnquoted,
+    /// F2e: a relative name after $ORIGIN is not completed with the current origin
+    RelativeOrigin,
 }
 
 impl Dev {
@@ -456,6 +458,7 @@ impl Dev {
             Dev::AtInRdata => "C20-F2b-at-in-rdata",
             Dev::DddInName => "C20-F2b-ddd-in-name",
             Dev::EscapeUnquoted => "C20-F2b-escape-unquoted",
+            Dev::RelativeOrigin => "C20-F2e-relative-origin",
         }
     }
 }
@@ -608,9 +611,17 @@ impl<'a> Printer<'a> {
     fn directive_origin(&mut self, n: &GName) {
         self.out.extend_from_slice(b"$ORIGIN");
         self.gap();
-        let saved = std::mem::replace(&mut self.origin, GName { labels: vec![b"\x00none".to_vec()] });
-        let t = self.name_text(n, false); // absolute: nothing is under the dummy origin
-        self.origin = saved;
+        let t = if self.devs_on && n.is_under(&self.origin) && self.r.chance(1, 2) {
+            // legal: a relative name is relative to the current origin
+            self.devs.insert(Dev::RelativeOrigin);
+            let k = n.labels.len() - self.origin.labels.len();
+            self.labels_text(&n.labels[..k])
+        } else {
+            let saved = std::mem::replace(&mut self.origin, GName { labels: vec![b"\x00none".to_vec()] });
+            let t = self.name_text(n, false); // absolute: nothing is under the dummy origin
+            self.origin = saved;
+            t
+        };
         self.out.extend(t);
         self.eol();
         self.origin = n.clone();
@@ -833,9 +844,15 @@ fn print_zone(r: &mut Rng, origin: &GName, recs: &[GRec], devs_on: bool, plain: 
             let t = if p.r.chance(1, 2) { rec.ttl } else { gen_ttl(&mut *p.r) };
             p.directive_ttl(t);
         }
-        if !plain && p.r.chance(1, 7) {
+        if !plain && p.r.chance(1, if devs_on { 4 } else { 7 }) {
             // new origin: an ancestor of the next owner, the zone origin, or something unrelated
-            let n = match p.r.below(3) {
+            // (with the deviation layouts on: often a child of the current origin)
+            let n = match if devs_on && p.r.chance(1, 2) { 3 } else { p.r.below(3) } {
+                3 => {
+                    let mut labels = vec![gen_label(&mut *p.r)];
+                    labels.extend(p.origin.labels.iter().cloned());
+                    fit(GName { labels })
+                }
                 0 if !rec.owner.labels.is_empty() => {
                     let k = p.r.range(0, rec.owner.labels.len() as u64 - 1) as usize;
                     GName { labels: rec.owner.labels[k..].to_vec() }
